@@ -173,7 +173,7 @@ class Case:
     """
 
     def __init__(self, cid, prop, config, declare, fn, claims, timeout=120, hooks=None, normals=None,
-                 noninterference=None, notes=None, adjusted=None, env=None):
+                 noninterference=None, notes=None, adjusted=None, env=None, replay_scales=None):
         self.id, self.prop, self.config = cid, prop, config
         self.declare, self.fn, self.claims = declare, fn, claims
         self.timeout = timeout
@@ -185,6 +185,10 @@ class Case:
         # plain VC is sat but this one is unsat the violation is exactly that finding
         self.adjusted = adjusted
         self.env = env          # optional callable(ctx, rng) -> numeric environment satisfying the case's assumptions
+        # optional (variable-name prefixes, [scale factors]): after a sat verdict whose model does not reproduce at O(1)
+        # inputs, the replay is repeated with those variables scaled and the error measured relative to the NATURAL SCALE
+        # of each claimed array (the property's notion of equality) -- for deviations that only matter at small scales
+        self.replay_scales = replay_scales
 
 
 def _flat(x):
@@ -610,6 +614,18 @@ def run_case(case, seed=0, solver_timeout_ms=60000, cvc5=False, selfcheck_points
                 best = rep
             if rep.get("reproduced"):
                 break
+    if not (best and best.get("reproduced")) and case.replay_scales:
+        prefixes, scales = case.replay_scales
+        for sc in scales:
+            env = gen_env(case, ctx, rng)
+            for n in list(env):
+                if any(n.startswith(pf) for pf in prefixes):
+                    env[n] = env[n] * sc
+            rep = _replay(case, I, env, natural=True)
+            rep["model_kind"] = f"generic-point-scaled-{sc:g}-natural-scale-error"
+            if rep.get("reproduced"):
+                best = rep
+                break
     res["replay"] = best
     if best and best.get("reproduced") and case.adjusted is not None:
         fid, cfn = case.adjusted
@@ -638,7 +654,7 @@ def run_case(case, seed=0, solver_timeout_ms=60000, cvc5=False, selfcheck_points
     return res
 
 
-def _replay(case, I, env):
+def _replay(case, I, env, natural=False):
     from .spec import FloatOps
     If = eval_inputs(I, env)
     out = {"inputs": {k: v.tolist() for k, v in If.items()}, "reproduced": False}
@@ -670,13 +686,18 @@ def _replay(case, I, env):
         label, lhs, rhs = c
         a = np.asarray(lhs, dtype=float); bb = np.asarray(rhs, dtype=float)
         a, bb = np.broadcast_arrays(a, bb)
+        floor = 1.0
+        if natural and a.size and np.all(np.isfinite(a)) and np.all(np.isfinite(bb)):
+            nat = max(float(np.max(np.abs(a))), float(np.max(np.abs(bb))))
+            if nat > 1e-200:
+                floor = nat          # error relative to the natural scale of the claimed array
         for k, (x, y) in enumerate(zip(a.reshape(-1), bb.reshape(-1))):
             if not (math.isfinite(x) and math.isfinite(y)):
                 nan = True
                 if worst[0] < float("inf") and math.isfinite(y) and not math.isfinite(x):
                     worst = (float("inf"), f"{label}#{k}", float(x), float(y))
                 continue
-            er = abs(x - y) / max(1.0, abs(x), abs(y))
+            er = abs(x - y) / (max(1.0, abs(x), abs(y)) if not natural else floor)
             if er > worst[0]:
                 worst = (er, f"{label}#{k}", float(x), float(y))
     out.update(max_err=worst[0], worst_label=worst[1], lhs=worst[2], rhs=worst[3], nonfinite=nan)
